@@ -30,8 +30,14 @@ PIPELINES = {
         "drivers": [{"name": "all", "cmd": ["import", "{cases_MC_Cert}", "{cases_MC_Import}", "{out}", "{tier}"], "cases": "MC_Import"}],
         "min_events": 500,
     },
-    "csr": {
+    "csrparse": {
         "variants": ["ring"],
+        "mc": [{"module": "MC_CsrParse", "workers": 4, "emits": False}],
+        "drivers": [{"name": "all", "cmd": ["csr-parse", "{out}", "{tier}"], "random": True, "timeout": 3000}],
+        "min_events": 200,
+    },
+    "csr": {
+        "variants": ["ring", "awslc"],
         "mc": [{"module": "MC_Csr", "workers": 8}],
         "drivers": [{"name": "cases", "cmd": ["csr-cases", "{cases}", "{out}"], "cases": "MC_Csr"}],
         "min_events": 500,
@@ -93,6 +99,9 @@ PROPS = {
     "C09": _p("model_checking", ["time", "cert", "crl"], ["C09."],
               "cases = MC_Time.TimeCases: (boundary day, delta seconds, UTC offset) triples around 1950-01-01, 2050-01-01, 0000-01-01 and 10000-01-01, each expressed under an offset and under the negated offset with different sub-second parts; distinct by abstract args",
               ops=["Cert"], exhaustive=True),
+    "C06": _p("model_checking", ["csrparse"], ["C06."],
+              "base requests: rcgen-generated (every algorithm x {plain, full}), OpenSSL-generated for 13 key/digest pairings (incl. P-384/SHA-256, P-256/SHA-384, P-521, RSA/SHA-384/512, secp256k1) x extension shapes (supported, BasicConstraints, EKU other, unknown OID, SKI), 10 handcrafted shapes (two extensionRequest attributes, two values, repeated extension, repeated subject type, multi-valued RDN, ...); mutations of every base: bit flips / overwrites / delete / insert / truncate at every byte position (stride 3 on 3/4 of the bases in quick), random multi-byte, TLV drop/duplicate with length repair; every ACCEPTED input is an event judged by TLC (independent signature verdict over the bytes as they appear), rejected mutants are counted; every accepted request is also issued from",
+              ops=["CsrParse", "CsrIssue"], exhaustive=False),
     "C07": _p("model_checking", ["csr"], ["C07."],
               "cases = MC_Csr.Cases: presence product {KU, SAN, EKU, custom} x subject x caller attribute lists (orders, duplicate OIDs) x every subset of the five inexpressible fields x algorithms, all 512 key-usage sets; each generated request is decoded independently and parsed back by rcgen",
               ops=["Csr"], exhaustive=True),
